@@ -108,8 +108,20 @@ def inventory(ctx):
 
 
 def r04_1(ctx):
-    inv, msgs = inventory(ctx)
-    ref = json.load(open(REF))["sites"]
+    inv0, msgs0 = inventory(ctx)
+    ref0 = json.load(open(REF))["sites"]
+    # a closure's sites belong to the function it is written in: moving a panicking expression into or out of a closure
+    # (`match .. { None => panic!() }` <-> `unwrap_or_else(|| panic!())`) adds no way to panic
+    fold = lambda k: k.replace("::{closure}", "")
+    inv, msgs, ref = Counter(), defaultdict(set), {}
+    for k, v in inv0.items():
+        inv[fold(k)] += v
+        msgs[fold(k)] |= msgs0.get(k, set())
+    for k, r in ref0.items():
+        if fold(k) in ref:
+            ref[fold(k)] = {"count": ref[fold(k)]["count"] + r["count"], "why": ref[fold(k)].get("why", "") + "; " + r.get("why", "")}
+        else:
+            ref[fold(k)] = dict(r)
     n = 0
     for key in sorted(inv):
         if key.endswith("/ overflow"):
